@@ -2,6 +2,7 @@
 
 import collections
 from datetime import datetime
+import re
 
 import stix2.utils
 
@@ -39,6 +40,19 @@ def _check_filter_components(prop, op, value):
         raise ValueError("Filter for property 'type' cannot have its value '%s' include underscores" % value)
 
     return True
+
+
+_TIMESTAMP_LOOK = re.compile(r"\d{4}-\d\d-\d\dT\d\d:\d\d:\d\d(\.\d+)?Z\Z")
+
+
+def _timestamp_or_none(text):
+    """The instant a STIX timestamp string denotes, or None if it is not one."""
+    if _TIMESTAMP_LOOK.match(text):
+        try:
+            return stix2.utils.parse_into_datetime(text)
+        except ValueError:
+            pass
+    return None
 
 
 class Filter(collections.namedtuple('Filter', ['property', 'op', 'value'])):
@@ -92,6 +106,26 @@ class Filter(collections.namedtuple('Filter', ['property', 'op', 'value'])):
             )
         else:
             filter_value = self.value
+
+        if isinstance(stix_obj_property, str):
+            # An object kept as a dictionary (e.g. of an unregistered custom
+            # type) holds its timestamps as text.  Against a timestamp filter
+            # value, compare instants rather than spellings.
+            obj_timestamp = _timestamp_or_none(stix_obj_property)
+            if obj_timestamp is not None:
+                if isinstance(filter_value, tuple):
+                    values = tuple(
+                        _timestamp_or_none(v) if isinstance(v, str) else v
+                        for v in filter_value
+                    )
+                    if all(isinstance(v, datetime) for v in values):
+                        stix_obj_property, filter_value = obj_timestamp, values
+                else:
+                    value = filter_value
+                    if isinstance(value, str):
+                        value = _timestamp_or_none(value)
+                    if isinstance(value, datetime):
+                        stix_obj_property, filter_value = obj_timestamp, value
 
         if self.op == "=":
             return stix_obj_property == filter_value
